@@ -60,7 +60,7 @@ func genDagCase(t *rapid.T, cfg dagCfg) *DagCase {
 			r := rapid.IntRange(0, 99).Draw(t, "outcome")
 			switch {
 			case r < cfg.ErrPct:
-				c.Outcomes[i] = append(c.Outcomes[i], "err")
+				c.Outcomes[i] = append(c.Outcomes[i], rapid.SampledFrom([]string{"err", "err", "err", "errc", "errd"}).Draw(t, "errkind"))
 			case r < cfg.ErrPct+cfg.SkipPct:
 				c.Outcomes[i] = append(c.Outcomes[i], "skip")
 			default:
@@ -253,8 +253,12 @@ func saveFail(id, sub string, c *DagCase, msg string) string {
 func (p *dprop) run(t *testing.T) {
 	st := evid.New(p.ID, p.Sub, p.Rule)
 	defer st.Write()
+	track := os.Getenv("VERIF_TRACK_CURRENT") != ""
 	rapid.Check(t, func(rt *rapid.T) {
 		c := p.Gen(rt)
+		if track {
+			writeCurrent(p.ID, p.Sub, c)
+		}
 		if err := p.check(c, st); err != nil {
 			path := saveFail(p.ID, p.Sub, c, err.Error())
 			rt.Fatalf("%s/%s violated: %v\ncase file: %s", p.ID, p.Sub, err, path)
@@ -333,6 +337,23 @@ func init() {
 	propC15.register()
 	propC16.register()
 }
+
+// race-detector builds of the controlled checks: the harness synchronises only through its own mutex and
+// channels, so any report is a data race inside the library (e.g. state shared between task goroutines).
+func raceVariant(p *dprop) *dprop {
+	q := *p
+	q.Sub = p.Sub + "-race"
+	q.Rule = "the same generator and invariants as " + p.Sub + ", run under the Go race detector (halt_on_error): a data race inside the scheduler or between task goroutines is reported with the case in flight"
+	q.register()
+	return &q
+}
+
+var propC13race, propC14race, propC15race, propC16race = raceVariant(propC13), raceVariant(propC14), raceVariant(propC15), raceVariant(propC16)
+
+func TestC13_orderRace(t *testing.T)     { propC13race.run(t) }
+func TestC14_faultsRace(t *testing.T)    { propC14race.run(t) }
+func TestC15_boundRace(t *testing.T)     { propC15race.run(t) }
+func TestC16_historiesRace(t *testing.T) { propC16race.run(t) }
 
 func TestC13_order(t *testing.T)     { propC13.run(t) }
 func TestC14_faults(t *testing.T)    { propC14.run(t) }
